@@ -643,8 +643,8 @@ def _strategy_rm(shapes):
                 "fkind": fk, "f": draw(gen.factor_params(fk, R if op == "hadamard" else 1, D, kappa)), "update_full": draw(st.booleans()),
                 "idx": draw(gen.index_array(R, 1, 3)), "dims": draw(gen.perm_prefix(D, 1, max(1, D - 1))),
                 "x": draw(gen.arr((2, D), -2, 2)), "W": draw(gen.spd(R, D, kappa=20.0, lam_lo=0.5, lam_hi=2.0))[:, :1, :],
-                "new": draw(gen.measure_params("pdf", k, 8, kappa)), "uidx": list(draw(st.permutations(list(range(R))))[:k]),
-                "Snew": draw(gen.spd(1, 8, kappa=kappa)), "mutator": draw(st.sampled_from(["normalize", "update", "update"]))}
+                "new": draw(gen.measure_params("pdf", k, 12, kappa)),  # cut down to the result's dimension (<= 2 D <= 10) "uidx": list(draw(st.permutations(list(range(R))))[:k]),
+                "Snew": draw(gen.spd(1, 12, kappa=kappa)), "mutator": draw(st.sampled_from(["normalize", "update", "update"]))}
     return s()
 
 
@@ -712,10 +712,14 @@ def _run_rm(case):
     tag = f"{op}:then_mutate"
     if hasattr(r1, "update_Sigma") and not hasattr(r1, "evaluate_ln"):
         Dy_r = int(r1.Dy)
+        if Dy_r > np.asarray(case["Snew"]).shape[-1]:
+            return fails  # no replacement of that size was generated
         Sn = np.asarray(case["Snew"], float)[:, :Dy_r, :Dy_r] * 1.7
         ok, _ = lib(fails, tag + ".update_Sigma", lambda: r1.update_Sigma(J(np.tile(Sn, (int(r1.R), 1, 1)))))
     elif isinstance(r1, pdfmod.GaussianPDF) and case["mutator"] == "update":
         Dr, Rr = int(r1.D), int(r1.R)
+        if Dr > np.asarray(case["new"]["Sigma"]).shape[-1]:
+            return fails  # no replacement of that size was generated
         newp = {"Sigma": np.asarray(case["new"]["Sigma"], float)[:1, :Dr, :Dr] * 1.3, "mu": np.asarray(case["new"]["mu"], float)[:1, :Dr] + 0.7}
         kind_new = "diag_pdf" if isinstance(r1, pdfmod.GaussianDiagPDF) else "pdf"
         if kind_new == "diag_pdf":
